@@ -145,7 +145,11 @@ def ops_unit(u):
     samples = []
     for ti in u["idx"]:
         tbl = tbls[ti]
-        for offset in ((0, 8) if u["k"] <= 2 else (0,)):
+        # priority numbering: 1..L, 9..(straddling the default 10), and
+        # zero-based 0..L-1 (a priority of exactly 0 is falsy in Python)
+        canonical = (tbl[2] == tuple(OPS[:u["k"]]) and not tbl[3])
+        for offset in ((0, 8, -1) if u["k"] <= 2 else
+                       (0, -1) if canonical else (0,)):
             text, info = render(tbl, offset)
             cfg = f"ops{u['k']}/off{offset}"
             gk = text
